@@ -461,7 +461,7 @@ func (p c03) Run(w *mon.Worker, idx int) mon.Result {
 		}
 		var conts [][]any
 		doc.Walk(nil, func(pth []any, n *ref.V) {
-			if (n.K == ref.Seq || n.K == ref.Map) && len(n.A)+len(n.M) >= 2 && len(pth) >= 1 && len(pth) <= 2 {
+			if (n.K == ref.Seq || n.K == ref.Map) && len(n.A)+len(n.M) >= 1 && len(pth) >= 1 && len(pth) <= 2 {
 				for _, k := range pth {
 					if s, isS := k.(string); isS && !identOK(s) {
 						return
@@ -499,9 +499,44 @@ func (p c03) Run(w *mon.Worker, idx int) mon.Result {
 		}
 		derived := dl[0]
 		res.Tags = append(res.Tags, "f:"+fname)
-		form := r.IntN(3)
+		form := r.IntN(4)
 		if src.K == ref.Map && form < 2 {
 			form = 2
+		}
+		if form == 3 {
+			// the delete works on the DERIVED value inside an assignment; the source it was derived from is still there
+			// afterwards (also when the deriving function had nothing to do: one element, already sorted ...)
+			selStr, ts, ok := c03SeqSelection(r, derived)
+			if !ok {
+				return skip("selection not defined")
+			}
+			var exprS string
+			wantS := doc.Copy()
+			after := ref.DeletePaths(derived, paths(ts))
+			switch r.IntN(3) {
+			case 0:
+				exprS = fmt.Sprintf(".zz_side = (%s | %s | del(%s))", SP, f.String(), selStr)
+				_ = ref.SetPath(wantS, []any{"zz_side"}, after)
+			case 1:
+				exprS = fmt.Sprintf("(%s | %s | del(%s)) as $r | .zz_side = $r", SP, f.String(), selStr)
+				_ = ref.SetPath(wantS, []any{"zz_side"}, after)
+			default:
+				exprS = fmt.Sprintf("[%s, (%s | %s | del(%s))] as $p | .zz_side = $p", SP, SP, f.String(), selStr)
+				_ = ref.SetPath(wantS, []any{"zz_side"}, ref.SeqV(src.Copy(), after))
+			}
+			cs["expr"] = exprS
+			res.Tags = append(res.Tags, "side_form:3")
+			res.Sig = fmt.Sprintf("side|3|%s|%x", fname, doc.ShapeHash())
+			gotS, _, yerrS := evalDoc(exprS, doc)
+			res.Evals++
+			if yerrS != nil {
+				return fail("`%s` failed: %v", exprS, yerrS)
+			}
+			if gotS == nil || !ref.EqualNum(gotS, wantS) {
+				return fail("`%s`\n input    %s\n expected %s\n observed %s", exprS, doc, wantS, gotS)
+			}
+			res.Verdict, res.Nontrivial, res.Detail = mon.Held, true, "delete on the derived value leaves its source alone"
+			return res
 		}
 		var expr string
 		want := doc.Copy()
